@@ -72,7 +72,7 @@ Stmts == <<
   (* 17: the pair a loop over a map hands out in its first iteration, assigned: it is still that pair after the loop *)
           <<[t |-> "for", tag |-> "for", var |-> X, coll |-> Var(M12),
              body |-> <<[t |-> "if", branches |-> <<[c |-> [t |-> "prop", e |-> Var(B_forloop), name |-> B_first],
-                                                     body |-> <<[t |-> "assign", name |-> Y, e |-> Var(X)]>>]>>]>>]>>
+                                                     body |-> <<[t |-> "assign", name |-> Y, e |-> Var(X)]>>]>>], Ob(Var(X)), T(<<59>>)>>]>>
 >>
 NS == Len(Stmts)
 
@@ -99,7 +99,7 @@ Decl(ix, s) ==
                    [] i = 6 -> [s EXCEPT !.out = @ \o Tx(s.x) \o <<124>> \o Tx(s.y) \o <<124>> \o Tx(s.fl) \o <<35>>
                                                     \o (IF s.x.k = "str" THEN IntText(Len(s.x.v)) ELSE <<>>) \o (IF Truthy(s.x) THEN <<116>> ELSE <<102>>) \o <<59>>]
                    [] i = 16 -> [s EXCEPT !.x = Str(Tx(s.y))]
-                   [] i = 17 -> [s EXCEPT !.y = Arr(<<Str(<<97>>), IntV(1)>>)]
+                   [] i = 17 -> [s EXCEPT !.y = Arr(<<Str(<<97>>), IntV(1)>>), !.out = @ \o <<97, 49, 59, 98, 50, 59>>]
                    [] i = 7 -> IF Truthy(s.x) THEN [s EXCEPT !.y = IntV(2)] ELSE s
                    [] i = 8 -> [s EXCEPT !.y = IntV(2)]
                    [] i = 9 -> [s EXCEPT !.y = Str(<<49, 50>>)]
